@@ -105,7 +105,7 @@ class Parser:
     list of (str, gfapy.Field.FIELD_DATATYPE)
       the parsed content of the field
     """
-    match = re.match(r"^([A-Za-z][A-Za-z0-9]):([AifZJHB]):(.+)$", tag)
+    match = re.match(r"^([A-Za-z][A-Za-z0-9]):([AifZJHB]):(.+)\Z", tag)
     if match:
       return [match.group(1), match.group(2), match.group(3)]
     else:
